@@ -137,14 +137,26 @@ def run(out, tier, rng, work):
         if a == b:
             continue
         addr = rng.choice(gen_ca.VETO)
-        stacks = [dict(dll='j1939-21', max_cmdt=1, subs=[], cas=[dict(name=nm, addr=addr, bypass=False, subs=[10 * i + 1], req=[10 * i + 2])]) for i, nm in enumerate((a, b))]
-        t2 = rng.choice([1000, 120000, 600000])
+        names = [a, b]
+        starts = [1000, rng.choice([1000, 120000, 600000])]
+        if k % 5 == 4:
+            # three contenders, one after the other, for the same address: the holder meets a weaker NAME first (keeps the
+            # address), then a stronger one (yields) — each comparison is with the NAME in THAT claim
+            lo, hi = min(a, b), max(a, b)
+            mid = lo + (hi - lo) // 2
+            if lo < mid < hi:
+                names = [mid, hi, lo]
+                starts = [1000, 600000, 1300000]
+        dllk = rng.choice(['j1939-21', 'j1939-21', 'j1939-22'])
+        stacks = [dict(dll=dllk, max_cmdt=1, subs=[],
+                       cas=[dict(name=nm & ~(1 << 48), addr=addr, bypass=False, subs=[10 * i + 1], req=[10 * i + 2])]) for i, nm in enumerate(names)]
+        t2 = starts[1]
         sc = dict(stacks=stacks, lat=[rng.choice([1, 5000])], jit=[1], horizon=5_000_000,
-                  script=[dict(t=1000, s=0, op='ca_start', ca=0, delay=0), dict(t=t2, s=1, op='ca_start', ca=0, delay=0)])
+                  script=[dict(t=starts[i], s=i, op='ca_start', ca=0, delay=0) for i in range(len(names))])
         res = scen.run(sc)
         out.add_case(('arbitration', a, b, addr, t2), True)
         for x in p_c04.oracle(sc, res):
-            if x['kind'] in ('lowest-name-does-not-keep', 'duplicate-address') and x['kind'] not in worst:
+            if x['kind'] in ('lowest-name-does-not-keep', 'duplicate-address', 'claim-exchange-never-ends') and x['kind'] not in worst:
                 worst[x['kind']] = (x, sc)
     for kind, (x, sc) in worst.items():
         out.violation('arbitration %s: %s' % (kind, _json.dumps(x, default=str)[:300]), dict(kind='arbitration-' + kind), dict(broke='oracle', scenario=sc, violation=x))
